@@ -9,7 +9,8 @@ RULE = ("pairs (c0, c1) with c1 in {omitted, equal copy, one-gate-type mutant, r
         "lint-clean blackbox-free circuits (constants, outputs that are inputs); startpoints in {default, all "
         "shared, one, random subset}, endpoints in {default, one (also an input), random subset}; every "
         "consistent valuation of the miter is checked; non-trivial = at least one compared endpoint is a gate"
-        "; plus: revisions in which a name that is a primary input of one circuit is a multi-input gate of the other")
+        "; plus: revisions in which a name that is a primary input of one circuit is a multi-input gate of the other"
+        "; histories: the same argument objects mitered before, also as an earlier revision edited in place since (set_type and back)")
 BOUND = "circuits <= 9 nodes each, <= 5 startpoints each; all valuations; 4/16 hash seeds"
 
 
@@ -116,7 +117,7 @@ def cases(tier, seed):
         for c0, c1 in prs:
             ch = list(_choices(rng, c0, c1))
             for s, e in rng.sample(ch, min(3, len(ch))):
-                yield {"c0": c0, "c1": c1, "sp": s, "ep": e, "twice": rng.random() < 0.3}
+                yield {"c0": c0, "c1": c1, "sp": s, "ep": e, "twice": rng.random() < 0.3, "edited": rng.random() < 0.3}
 
 
 def run_case(case):
@@ -140,6 +141,20 @@ def run_case(case):
         or "sat" in S_eff or bool({f"dif_{e}" for e in E_eff} & (S_eff | {"sat"}))
     S_arg, E_arg = (set(S) if S else None), (set(E) if E else None)
     try:
+        if case.get("edited"):
+            # the caller mitered an earlier revision of the same circuit object, then edited it in place (same node and edge counts)
+            tgt = cc1
+            gs = sorted(n for n in tgt.graph if tgt.graph.nodes[n].get("type") in gen.MULTI)
+            if gs:
+                g_ = gs[len(gs) // 2]
+                t_ = tgt.graph.nodes[g_]["type"]
+                tgt.set_type(g_, gen.MULTI[(gen.MULTI.index(t_) + 1) % len(gen.MULTI)])
+                try:
+                    cg.tx.miter(c0, c1, startpoints=S_arg, endpoints=E_arg)
+                except ValueError:
+                    pass
+                finally:
+                    tgt.set_type(g_, t_)
         if case.get("twice"):
             # an earlier call with the very same argument objects must not influence the one under test
             cg.tx.miter(c0, c1, startpoints=S_arg, endpoints=E_arg)
